@@ -10,7 +10,9 @@ import (
 	"os"
 	"sort"
 
+	"github.com/foxboron/go-uefi/efi"
 	"github.com/foxboron/go-uefi/efi/attributes"
+	"github.com/foxboron/go-uefi/efi/signature"
 	efifs "github.com/foxboron/go-uefi/efi/fs"
 	"github.com/foxboron/go-uefi/efi/util"
 	"github.com/foxboron/go-uefi/efivar"
@@ -166,6 +168,11 @@ func runVario(sc M) {
 		callStart(id, api+":"+op, M{"i": si})
 		end := M{"sc": id, "op": "api_end", "api": api, "kind": op, "res": "ok", "got": "-", "gattrs": []string{}, "unmarshal_called": false, "i": si}
 		from := len(r.calls)
+		r.faultAt, r.kind = 0, ""
+		if wf := str(step, "wfault"); wf != "" && op == "write" {
+			// the one write of this call fails (an interrupted system call ...): it stays one write, and the call reports the failure
+			r.faultAt, r.kind = len(r.calls)+2, wf
+		}
 		var o Outcome
 		var err error
 		switch api {
@@ -194,6 +201,30 @@ func runVario(sc M) {
 				if errors.Is(err, efivarfs.ErrIncorrectAttributes) {
 					end["res"] = "wrongattrs"
 				}
+			}
+		case "legacytyped":
+			// the typed accessors of the legacy package (efi.GetPK / GetKEK / Getdb / Getdbx): the variable's required attributes are
+			// checked against the stored mask before the value is decoded as a signature database
+			o, err = guard(func() error {
+				var db *signature.SignatureDatabase
+				var e error
+				switch name {
+				case "PK":
+					db, e = efi.GetPK()
+				case "KEK":
+					db, e = efi.GetKEK()
+				case "db":
+					db, e = efi.Getdb()
+				default:
+					db, e = efi.Getdbx()
+				}
+				if e == nil && db != nil {
+					end["got"] = identify(db.Bytes())
+				}
+				return e
+			})
+			if err != nil {
+				end["res"] = "error"
 			}
 		case "legacy":
 			o, err = guard(func() error {
